@@ -1,4 +1,5 @@
 """C18 — runaway recursion ends in a call-depth error, never in a crash (DESIGN §4 C18)."""
+import os
 import re
 from lib import hir as H
 from lib import mir as M
@@ -255,6 +256,28 @@ def run(ctx):
     ctx.rule("C18.R9", "the call-depth error ends the run: in the CLI's statement loop every Err of evaluate_pairs leads to a non-zero exit through a handler that reports it - also when the failing statement is an `output` declaration", floor=2)
     from rules import c19 as c19_
     c19_.evaluation_errors_are_fatal(ctx, "C18.R9", ctx.cli)
+
+    # ---------------- R10 the optimised build is optimised
+    ctx.rule("C18.R10", "the optimised profiles the CLI ships as (release, and dist which inherits it) keep cargo's opt-level 3: the frames of the evaluator's recursive functions are several times larger unoptimised, and 1000 nested calls no longer fit the stack (the thorough tier measures the frames of whatever the profile builds)", floor=1)
+    import tomllib
+    from lib import facts as F_
+    try:
+        man = tomllib.load(open(os.path.join(F_.REPO, "Cargo.toml"), "rb"))
+    except Exception as ex_:
+        man = None
+        ctx.inst("C18.R10", "profile.release#opt-level", None, "workspace manifest not read: %s" % ex_, "Cargo.toml")
+    if man is not None:
+        profs = man.get("profile", {})
+        for pn in sorted(set(profs) | {"release"}):
+            pr = profs.get(pn, {})
+            if pn not in ("release",) and pr.get("inherits") != "release":
+                continue
+            ol = pr.get("opt-level", 3)
+            per_pkg = {k_: v_.get("opt-level") for k_, v_ in (pr.get("package") or {}).items() if isinstance(v_, dict) and "opt-level" in v_ and (k_ in ("blots-core", "blots", "*"))}
+            vals = [ol] + list(per_pkg.values())
+            bad = [v_ for v_ in vals if v_ in (0, 1, "0", "1")]
+            unsure = [v_ for v_ in vals if v_ not in (3, "3") and v_ not in bad]
+            ctx.inst("C18.R10", "profile.%s#opt-level" % pn, False if bad else (None if unsure else True), "opt-level %s%s" % (ol, "; per-package overrides %s" % per_pkg if per_pkg else ""), "Cargo.toml")
 
     ctx.rule("C18.R3s", "the evaluator runs on the main thread (8 MiB default) or on a thread whose explicit stack size is at least that; recorded for the stack budget", floor=1)
     sizes = []
